@@ -15,7 +15,7 @@ LEVEL = "model_checking"
 def run(res):
     res.cov["rule"] = ("cases = transition cover of the Api.tla state graph: one call program per distinct (abstract state, call, "
                        "abstract state') edge, prefix = shortest path from the initial state; non-trivial = program executed to its end or to a judged failure")
-    res.assumptions += ["encoder API only (the decoder's entry points are exercised by C09/C15 session runs)",
+    res.assumptions += ["decoder: DecApi.tla with temporal units of a valid stream (malformed data is C10)",
                         "calls outside the protocol are followed only by teardown", "a call that has not returned after 20 s counts as blocking"]
     r, nodes, edges = apigraph.load_graph()
     res.tlc_stats(r)
@@ -36,8 +36,34 @@ def run(res):
             seen.add(sig)
             res.violation("C14: " + txt, "program:\n" + "\n".join(calls) + "\n\nevents:\n" + "\n".join(json.dumps(e) for e in rr["events"]), key=key)
     long_sessions(res)
+    decoder_part(res)
+    res.cov["unconfirmed_observations"] = list(apirun.UNCONFIRMED)[:20]
     res.sample({"program": [c for c, a, act, b in sel[len(sel) // 2]]})
     res.sample({"program": [c for c, a, act, b in sel[-1]]})
+
+
+def decoder_part(res):
+    """DecApi.tla: the decoder's call protocol, same procedure (complete graph -> one program per abstract edge -> real library),
+    with 1 and 3 decoder threads."""
+    r, nodes, edges = apigraph.load_graph("DecApi", "DecApi.cfg")
+    res.tlc_stats(r)
+    progs = apigraph.programs(nodes, edges)
+    res.cov["decoder_programs_in_cover"] = len(progs)
+    seen = set()
+    for threads in (1, 3):
+        results = apirun.run_programs(progs, lp=threads, dec=True)
+        res.add("traces_validated_against_impl", len(results))
+        for rr in results:
+            calls = [c for c, a, act, b in rr["prog"]]
+            res.case("dec threads=%d %s" % (threads, json.dumps(calls)))
+            for key, txt in apirun.judge_calls(res, rr):
+                key = dict(key, api="decoder")
+                sig = json.dumps(key, sort_keys=True)
+                if sig in seen:
+                    continue
+                seen.add(sig)
+                res.violation("C14 (decoder, %d threads): %s" % (threads, txt),
+                              "program:\n" + "\n".join(calls) + "\n\nevents:\n" + "\n".join(json.dumps(e) for e in rr["events"]), key=key)
 
 
 def long_sessions(res):
